@@ -25,6 +25,7 @@ from ..world import World
 
 ID = 'C05'
 LEVEL = 'exploration'
+NEEDS_GPG = True
 RULE = ('each run is (a) a fake-peer run: a status sequence drawn from gpg\'s vocabulary (good / expired-key / revoked-key / '
         'bad / error / expired-signature shapes) with 0-3 line faults (drop, duplicate, swap, insert, garbage), an exit '
         'status, optional stdout truncation / missing binary / non-UTF-8 stderr, fed to verify_file and ManifestFile.load; '
